@@ -920,6 +920,12 @@ fn append_boundaries(rep: &mut Report, thorough: bool) {
 		("five-byte big-integer (over-wide)", vec![0x07, 0x00, 0x00, 0x00, 0x00, 0x01]),
 		("truncated big-integer", vec![0x03, 0xff, 0xff]),
 		("reserved long prefix", vec![0xff, 1, 2, 3, 4, 5, 6, 7, 8]),
+		("five-byte big-integer with a plausible low word", vec![0x07, 0x05, 0x00, 0x00, 0x40, 0x01]),
+		("six-byte big-integer with a plausible low word", vec![0x0b, 0xff, 0xff, 0xff, 0xff, 0x01, 0x00]),
+		("eight-byte big-integer, all ones", vec![0x13, 0xff, 0xff, 0xff, 0xff, 0xff, 0xff, 0xff, 0xff]),
+		("longest big-integer prefix", vec![0xff, 0xff, 0xff, 0xff, 0xff, 0xff, 0xff, 0xff, 0xff, 0xff]),
+		("big-integer mode, zero", vec![0x03, 0x00, 0x00, 0x00, 0x00]),
+		("two-byte mode, value below 64", vec![0xfd, 0x00]),
 	];
 	for (what, input) in bad {
 		rep.evaluations += 1;
@@ -984,7 +990,7 @@ pub fn c15(ctx: &Ctx) {
 			job += 1;
 		)*}
 	}
-	items!(u8, u32, String, Vec<u8>, (), SNamed2, (u8, u16), Option<u64>, Compact<u32>, u128, bool, [u8; 3], EDisc, Vec<String>, i16, f64);
+	items!(u8, u32, String, Vec<u8>, (), SNamed2, (u8, u16), Option<u64>, Compact<u32>, u128, bool, [u8; 3], EDisc, Vec<String>, i16, f64, Only, Marker, [Only; 2], BeU32);
 	if job % ctx.nshards == ctx.shard {
 		append_boundaries(&mut rep, ctx.tier == Tier::Thorough);
 	}
